@@ -68,13 +68,13 @@ Proof.
   apply alookup_In in E. specialize (H _ E). simpl in H. destruct l as [|x [|y t]]; try discriminate. exists x. reflexivity.
 Qed.
 
-Lemma closed_partial_lemma U W dq0 scheds S :
-  envelope_b U W = true -> resolve U W dq0 scheds = Ok S ->
+Lemma closed_partial_lemma U W dq0 S :
+  envelope_b U W = true -> resolve U W dq0 = Ok S ->
   NoDup (List.map p_name (pkgs_of U S)) /\ incl (pkgs_of U S) U /\
   (forall w, In w W -> exists dq i, incl dq0 dq /\ In i (candidates (new_resolver U) dq (cook_str w)) /\ In i S).
 Proof.
   intros HE H. split; [eapply nodup_lemma; exact H|]. split; [eapply members_lemma; exact H|].
-  intros w Hw. pose proof (resolve_ok _ _ _ _ _ (new_resolver_wf2 U) H) as [_ [HM HR]].
+  intros w Hw. pose proof (resolve_ok _ _ _ _ (new_resolver_wf2 U) H) as [_ [HM HR]].
   destruct (HR w Hw) as [dq [i [H1 [H2 [j [H3 H4]]]]]]. exists dq, i. split; [exact H1|]. split; [exact H2|].
   assert (Vi : i < List.length U).
   { destruct (candidates_spec _ _ _ _ (new_resolver_wf U) H2) as [V _].
@@ -160,7 +160,7 @@ Proof.
   - eapply IH; eassumption.
 Qed.
 
-Lemma resolve_ok_c R world dq0 scheds S : wf2 R -> resolve_with R world dq0 scheds = Ok S ->
+Lemma resolve_ok_c R world dq0 S : wf2 R -> resolve_with R world dq0 = Ok S ->
   exists dq1, constrain R (List.map cook_dep world) dq0 = Ok dq1 /\
   forall w, In w world -> exists dq i, incl dq1 dq /\ In i (candidates R dq (cook_str w)) /\
                                        exists j, In j S /\ nm R j = nm R i.
@@ -187,12 +187,12 @@ Proof.
   destruct (d_neg (cook_dep w)); [discriminate|]. split; [reflexivity | exact H].
 Qed.
 
-Lemma closed_partial_requests U W dq0 scheds S :
-  envelope_b U W = true -> resolve U W dq0 scheds = Ok S ->
+Lemma closed_partial_requests U W dq0 S :
+  envelope_b U W = true -> resolve U W dq0 = Ok S ->
   forall w, In w W -> satisfies_dep (pkgs_of U S) w.
 Proof.
   intros HE H w Hw. set (R := new_resolver U) in *.
-  destruct (resolve_ok_c R W dq0 scheds S (new_resolver_wf2 U) H) as [dq1 [HC HR]].
+  destruct (resolve_ok_c R W dq0 S (new_resolver_wf2 U) H) as [dq1 [HC HR]].
   destruct (HR w Hw) as [dq [i [H1 [H2 [j [H3 H4]]]]]].
   (* unique names: the chosen candidate is the member *)
   assert (Vi : i < List.length U).
@@ -237,12 +237,12 @@ Proof.
     + unfold constrain_provider. cbn [cook_dep d_pos]. rewrite Hreal, String.eqb_refl, EV, ES. reflexivity.
 Qed.
 
-Lemma closed_partial_lemma2 U W dq0 scheds S :
-  envelope_b U W = true -> resolve U W dq0 scheds = Ok S ->
+Lemma closed_partial_lemma2 U W dq0 S :
+  envelope_b U W = true -> resolve U W dq0 = Ok S ->
   NoDup (List.map p_name (pkgs_of U S)) /\ incl (pkgs_of U S) U /\
   (forall w, In w W -> satisfies_dep (pkgs_of U S) w) /\
   (forall w, In w W -> exists dq i, incl dq0 dq /\ In i (candidates (new_resolver U) dq (cook_str w)) /\ In i S).
 Proof.
-  intros HE H. destruct (closed_partial_lemma U W dq0 scheds S HE H) as [A [B C]].
+  intros HE H. destruct (closed_partial_lemma U W dq0 S HE H) as [A [B C]].
   split; [exact A|]. split; [exact B|]. split; [|exact C]. eapply closed_partial_requests; eassumption.
 Qed.
